@@ -122,6 +122,10 @@ pub struct World {
     pub allow_reexport: bool,
     /// one source file is also reachable through a relative symlink in another crate
     pub symlinks: bool,
+    /// annotated files outside any `src` directory
+    pub outside_src: bool,
+    /// CRLF line endings in every source file
+    pub crlf: bool,
 }
 
 const PRIMS: [&str; 9] = ["String", "u32", "i32", "bool", "f64", "u8", "i16", "u16", "f32"];
@@ -130,7 +134,7 @@ const NAMES: [&str; 24] = [
     "Ledger", "Member", "Note", "Order", "Policy", "Quota", "Record", "Session", "Token", "Unit", "Vault", "Widget",
     "Zone",
 ];
-const CRATES: [&str; 9] = ["alpha", "beta-core", "gamma", "delta_x", "eps-i-lon", "codable", "alpha-ext", "alpha/src/vendor/wire", "gamma/src/third_party/inner-kit"];
+const CRATES: [&str; 10] = ["alpha", "beta-core", "gamma", "delta_x", "eps-i-lon", "codable", "alpha-ext", "alpha/src/vendor/wire", "gamma/src/third_party/inner-kit", "delta.x"];
 const FILES: [&str; 9] = [
     "src/lib.rs",
     "src/model.rs",
@@ -164,6 +168,7 @@ pub struct GenOpts {
     pub reexports: bool,
     pub symlinks: bool,
     pub case_variants: bool,
+    pub cfg_twins: bool,
 }
 
 impl Default for GenOpts {
@@ -184,6 +189,7 @@ impl Default for GenOpts {
             reexports: false,
             symlinks: false,
             case_variants: true,
+            cfg_twins: true,
         }
     }
 }
@@ -439,13 +445,31 @@ pub fn gen_world(r: &mut Rng, o: &GenOpts) -> World {
             }
         }
     }
-    World { crates, items, noise: r.chance(1, 2), style: r.next(), allow_glob_named: o.glob_named, allow_reexport: o.reexports, symlinks: o.symlinks }
+    // one type per platform: the same item twice, identical but for the cfg attribute
+    if o.cfg_twins && r.chance(1, 8) {
+        let idx: Vec<usize> = items.iter().enumerate().filter(|(_, it)| it.annotated && it.kind == Kind::Struct && it.generics.is_empty() && it.in_mod.is_none()).map(|(i, _)| i).collect();
+        if !idx.is_empty() {
+            let a = idx[r.below(idx.len() as u64) as usize];
+            let mut twin = items[a].clone();
+            items[a].item_attrs.push("#[cfg(target_os = \"android\")]".to_string());
+            twin.item_attrs.push("#[cfg(target_os = \"ios\")]".to_string());
+            // same crate (one output namespace in both modes), same or another file
+            twin.file_ix = r.below(crates[twin.crate_ix].files.len() as u64) as usize;
+            items.push(twin);
+        }
+    }
+    World { crates, items, noise: r.chance(1, 2), style: r.next(), allow_glob_named: o.glob_named, allow_reexport: o.reexports, symlinks: o.symlinks, outside_src: r.chance(1, 8), crlf: r.chance(1, 14) }
 }
 
 pub fn render_item(it: &GItem) -> String {
     let mut s = String::new();
     if it.doc {
-        s.push_str(&format!("/// The {} type.\n", it.name));
+        if it.const_val % 3 == 0 {
+            // a block comment spanning lines
+            s.push_str(&format!("/**\n * The {} type.\n *\n * Second paragraph, with a caf\u{e9} and a \u{20ac} sign.\n */\n", it.name));
+        } else {
+            s.push_str(&format!("/// The {} type.\n", it.name));
+        }
     }
     if it.annotated {
         s.push_str("#[typeshare]\n");
@@ -541,8 +565,8 @@ pub fn render_item(it: &GItem) -> String {
         }
     }
     if let Some(m) = &it.in_mod {
-        let body: String = s.lines().map(|l| format!("    {l}\n")).collect();
-        s = format!("pub mod {m} {{\n    use super::*;\n{body}}}\n");
+        // (not indented: the interior whitespace of a block doc comment is part of the doc text)
+        s = format!("pub mod {m} {{\nuse super::*;\n{s}}}\n");
     }
     s.push('\n');
     s
@@ -571,6 +595,11 @@ impl World {
                     for rname in refs {
                         let defs = self.defined_in(&rname);
                         if defs.contains(&ci) || defs.is_empty() {
+                            continue;
+                        }
+                        // a directory such as `delta.x` cannot be named in a `use` path
+                        let defs: Vec<usize> = defs.into_iter().filter(|d| !self.crates[*d].dir.rsplit('/').next().unwrap_or("").contains('.')).collect();
+                        if defs.is_empty() {
                             continue;
                         }
                         // with the name defined in several other crates, files of one crate may
@@ -602,7 +631,7 @@ impl World {
                     chunks.push(line);
                 }
                 // imports that no typeshared type of this file refers to (real files have plenty)
-                if self.crates.len() > 1 && fr.chance(1, 6) {
+                if self.crates.len() > 1 && fr.chance(1, 6) && !self.crates.iter().any(|c| c.dir.contains('.')) {
                     let oc = (ci + 1 + fr.below(self.crates.len() as u64 - 1) as usize) % self.crates.len();
                     let cn = crate_name_of(&self.crates[oc].dir);
                     chunks.push(if fr.chance(1, 2) { format!("use {cn}::*;\n") } else { format!("use {cn}::{{Unrelated, helper_fn}};\n") });
@@ -632,6 +661,15 @@ impl World {
             tree.push(SrcFile::text(&format!("{}/src/empty.rs", self.crates[0].dir), vec![]));
             tree.push(SrcFile::text(&format!("{}/src/tiny.rs", self.crates[0].dir), vec!["// x\n".into()]));
         }
+        // annotated files that are not below a `src` directory (tests, examples, build scripts)
+        if self.outside_src {
+            let c = &self.crates[(self.style % self.crates.len() as u64) as usize];
+            tree.push(SrcFile::text(
+                &format!("{}/tests/fixtures.rs", c.dir),
+                vec!["use typeshare::typeshare;\n".into(), "#[typeshare]\npub struct FixtureOnly { pub seen_by_single_file_mode: bool }\n".into()],
+            ));
+            tree.push(SrcFile::text(&format!("{}/examples/demo.rs", c.dir), vec!["#[typeshare]\npub type ExampleOnly = Vec<String>;\n".into()]));
+        }
         // a source file shared between two crates through a relative symlink
         if self.symlinks && self.crates.len() > 1 {
             let mut lr = Rng::new(self.style ^ 0x51AB);
@@ -643,6 +681,14 @@ impl World {
             let link = format!("{}/src/shared_link.rs", self.crates[to].dir);
             if !tree.iter().any(|f| f.path == link) {
                 tree.push(SrcFile { path: link, kind: FileKind::SymlinkToFile, chunks: vec![target], raw_hex: String::new() });
+            }
+        }
+        // Windows line endings throughout
+        if self.crlf {
+            for f in tree.iter_mut().filter(|f| f.kind == FileKind::Text && f.path.ends_with(".rs")) {
+                for c in f.chunks.iter_mut() {
+                    *c = c.replace('\n', "\r\n");
+                }
             }
         }
         tree.sort_by(|a, b| a.path.cmp(&b.path));
@@ -865,6 +911,11 @@ pub fn default_config_with(r: &mut Rng, lang: &str, omit_package: bool, mapped_n
         r.shuffle(&mut keys);
         for k in keys.iter().take(r.range(1, 3) as usize) {
             m.push_str(&format!("\"{k}\" = \"{}\"\n", r.pick(target)));
+            // the same name once more, path-qualified, mapped to something else
+            if r.chance(1, 4) {
+                m.push_str(&format!("\"vendor::{k}\" = \"{}\"\n", target[0]));
+                m.push_str(&format!("\"other::vendor::{k}\" = \"{}\"\n", target[target.len() - 1]));
+            }
         }
         m
     };
@@ -1020,6 +1071,8 @@ pub const POISONS: &[Poison] = &[
     Poison { id: "const_u64_type", poison: "#[typeshare]\npub const PZ: u64 = 5;\n", skipped: None },
     Poison { id: "const_float_literal", poison: "#[typeshare]\npub const PZ: f64 = 1.5;\n", skipped: None },
     Poison { id: "const_bool_literal", poison: "#[typeshare]\npub const PZ: bool = true;\n", skipped: None },
+    Poison { id: "u64_with_ts_type_decorator", poison: "#[typeshare]\npub struct Pz { pub ok: u32, #[typeshare(typescript(type = \"bigint\"))] pub big: u64 }\n", skipped: Some("#[typeshare]\npub struct Pz { pub ok: u32, #[serde(skip)] #[typeshare(typescript(type = \"bigint\"))] pub big: u64 }\n") },
+    Poison { id: "usize_with_kotlin_swift_type_decorators", poison: "#[typeshare]\npub struct Pz { pub ok: u32, #[typeshare(kotlin(type = \"ULong\"), swift(type = \"UInt64\"))] pub big: Vec<usize> }\n", skipped: Some("#[typeshare]\npub struct Pz { pub ok: u32, #[typeshare(skip)] #[typeshare(kotlin(type = \"ULong\"), swift(type = \"UInt64\"))] pub big: Vec<usize> }\n") },
     Poison { id: "tag_on_unit_enum", poison: "#[typeshare]\n#[serde(tag = \"type\")]\npub enum Pz { A, B }\n", skipped: None },
     Poison { id: "content_on_unit_enum", poison: "#[typeshare]\n#[serde(tag = \"type\", content = \"content\")]\npub enum Pz { A, B }\n", skipped: None },
     Poison { id: "const_string", poison: "#[typeshare]\npub const PZ: &str = \"nope\";\n", skipped: None },
